@@ -9,6 +9,7 @@
 #include <atomic>
 #include <cstdint>
 #include <deque>
+#include <functional>
 #include <initializer_list>
 #include <iostream>
 #include <map>
@@ -39,6 +40,10 @@ struct State {
   std::string arb_claim, arb_release;  // "<port>.<event>"
   long arb_grant = 0, arb_deny = 1;
   bool arb_held = false;  // only touched in dispatcher context
+  // reactions of the mock component: "<port>.<event>" of a handler it owns -> what it does,
+  // synchronously, while handling that event (e.g. raise an out-event)
+  std::mutex react_m;
+  std::map<std::string, std::function<void()>> reactions;
 };
 inline State& S() {
   static State s;
@@ -98,6 +103,15 @@ inline void handler(const char* side, const std::string& port, const char* dir, 
     << "\",\"ev\":\"" << ev << "\",\"n\":" << n << ",\"args\":" << jlist(args) << ",\"ret\":" << ret << ","
     << ctx() << "}";
   emit(o.str());
+  if (side[0] == 'c') {
+    std::function<void()> f;
+    {
+      std::lock_guard<std::mutex> l(S().react_m);
+      auto it = S().reactions.find(port + "." + ev);
+      if (it != S().reactions.end()) f = it->second;
+    }
+    if (f) f();
+  }
 }
 inline void begin_call(long id, const char* side, const std::string& port, const char* dir,
                        const char* ev, std::initializer_list<long> args) {
